@@ -326,7 +326,7 @@ pub fn gen_exc(r: &mut Rng, thorough: bool, cx: &mut Ctx) {
     for kind in 0..16u64 {
         for it in 0..(if thorough { 6000 } else { 300 }) {
             // long incoming queues (a match only behind many packets that do not match): the first few cases of every kind
-            let long: u64 = match it { 0 => 60 + r.below(10), 1 => 250 + r.below(20), 2 => 1000 + r.below(100), 3 if thorough && kind % 5 == 0 => 5000,        // (66000 made the thorough check run for hours: the model's trace is built by appending) _ => 0 };
+            let long: u64 = match it { 0 => 60 + r.below(10), 1 => 250 + r.below(20), 2 => 1000 + r.below(100), 3 if thorough && kind % 5 == 0 => 5000, _ => 0 };      // (a queue of 66000 made the thorough check run for hours: the model's trace is built by appending)
             let own: u16 = match r.below(5) { 0 => 0xffff, 1 => 1, _ => r.u16b() as u16 };
             let cap = r.chance(1, 3); let multi = if long > 0 { it % 2 == 0 || r.coin() } else { r.coin() };
             let dest = match r.below(4) { 0 => own, 1 => 0xffff, _ => other_addr(r, own) };
